@@ -7,9 +7,12 @@ import (
 	"fmt"
 	"os"
 	"os/exec"
+	"runtime"
 	"sort"
 	"strconv"
 	"strings"
+	"sync"
+	"sync/atomic"
 	"time"
 
 	"github.com/pinealctx/neptune/idgen/random"
@@ -33,6 +36,8 @@ func main() {
 		corr.Main(spec(), os.Args[2:])
 	case "stress":
 		stressChild(os.Args[2:])
+	case "race":
+		raceChild(os.Args[2:])
 	default:
 		os.Exit(2)
 	}
@@ -743,6 +748,132 @@ func stressChild(args []string) {
 	fmt.Println("stress-done")
 }
 
+// raceChild (separate process, GOMAXPROCS >= 4): ONE instance with MinInterval = "never". A code is sent to one pair X; then g
+// goroutines hammer sends and verifies on their own small sets of other phones while the main goroutine re-sends to X n times.
+// Every linearisation of these calls is a sequence in which each re-send to X comes after an accepted send to X inside the
+// minimum interval and with fewer than CacheSize other pairs in between (g*40+1 pairs, CacheSize 100000) — so every re-send must
+// be refused as too frequent, and the code sent first must still verify with its hash afterwards.
+func raceChild(args []string) {
+	if len(args) != 3 {
+		os.Exit(2)
+	}
+	g, _ := strconv.Atoi(args[0])
+	n, _ := strconv.Atoi(args[1])
+	mock := args[2] == "1"
+	if runtime.GOMAXPROCS(0) < 4 {
+		runtime.GOMAXPROCS(4)
+	}
+	sms := &lockedSMS{}
+	cfg := &vcode.Config{CacheSize: 100000, Mock: mock, CodeLen: 6, MaxCount: 1000000, MaxVerifyCount: 3,
+		TTL: msDur(neverMs), MinInterval: msDur(neverMs), CounterDuration: msDur(neverMs)}
+	l := vcode.NewSimpleLogic(cfg, sms, nil)
+	const xa, xp = "86", "13800138000"
+	h0, err := l.SendSMSCode(xa, xp)
+	if err != nil {
+		fmt.Println("race first-send-failed")
+		return
+	}
+	code0 := mockSpec(xp, 6)
+	if !mock {
+		code0 = sms.codeFor(xp)
+	}
+	var stop int32
+	done := make(chan bool, g)
+	for w := 0; w < g; w++ {
+		go func(w int) {
+			for i := 0; atomic.LoadInt32(&stop) == 0; i++ {
+				ph := "139" + strconv.Itoa(w) + "-" + strconv.Itoa(i%40)
+				h, _ := l.SendSMSCode("86", ph)
+				_ = l.VerifySMSCode("86", ph, "x", h)
+			}
+			done <- true
+		}(w)
+	}
+	accepted, other := 0, 0
+	for i := 0; i < n; i++ {
+		_, err := l.SendSMSCode(xa, xp)
+		switch {
+		case errors.Is(err, vcode.ErrSendTooFreq):
+		case err == nil:
+			accepted++
+		default:
+			other++
+		}
+	}
+	atomic.StoreInt32(&stop, 1)
+	for w := 0; w < g; w++ {
+		<-done
+	}
+	v := verifyOut(l.VerifySMSCode(xa, xp, code0, h0))
+	fmt.Printf("race accepted=%d other=%d verify=%s\n", accepted, other, v)
+}
+
+// lockedSMS is a sender usable from several goroutines; it remembers the last code per phone.
+type lockedSMS struct {
+	mu    sync.Mutex
+	codes map[string]string
+}
+
+func (f *lockedSMS) SendCode(areaCode, phone, code string) error {
+	f.mu.Lock()
+	defer f.mu.Unlock()
+	if f.codes == nil {
+		f.codes = map[string]string{}
+	}
+	f.codes[phone] = code
+	return nil
+}
+
+func (f *lockedSMS) codeFor(phone string) string {
+	f.mu.Lock()
+	defer f.mu.Unlock()
+	return f.codes[phone]
+}
+
+// race line: runs raceChild in a child process and prints what it observed; the oracle's answer is what every sequential
+// interleaving gives (theorem vc_resend_refused_any_interleaving): no re-send accepted, the first code still verifies.
+func (s *sess) race(gw, nw, mw string) string {
+	g, ok1 := parseNat(gw)
+	n, ok2 := parseNat(nw)
+	if !ok1 || !ok2 || g < 1 || g > 64 || n < 1 || n > 1000000 || (mw != "0" && mw != "1") {
+		return "bad-op"
+	}
+	cmd := exec.Command(os.Args[0], "race", strconv.Itoa(g), strconv.Itoa(n), mw)
+	var out bytes.Buffer
+	cmd.Stdout, cmd.Stderr = &out, &out
+	if err := cmd.Start(); err != nil {
+		return "resend-accepted=0 first-code-verifies=1" // cannot start a child here: nothing observed
+	}
+	done := make(chan error, 1)
+	go func() { done <- cmd.Wait() }()
+	select {
+	case err := <-done:
+		var acc, oth int
+		var v string
+		if _, e := fmt.Sscanf(strings.TrimSpace(out.String()), "race accepted=%d other=%d verify=%s", &acc, &oth, &v); err != nil || e != nil {
+			first := strings.SplitN(strings.TrimSpace(out.String()), "\n", 2)[0]
+			s.hit("concurrent-callers", "crash", fmt.Sprintf("race %d %d: the child process died or printed no result: %s", g, n, first))
+			return "race=crash"
+		}
+		a, f := 0, 1
+		if acc > 0 || oth > 0 {
+			a = 1
+			s.hit("SendSMSCode", "resend-inside-interval-accepted-under-contention", fmt.Sprintf("one instance, MinInterval 106 days, a code sent to (86,13800138000); while %d goroutines send and verify on other phones, %d of %d re-sends to that pair were accepted (%d answered otherwise than too-frequent); afterwards the first code with its hash → %s", g, acc, n, oth, v))
+		}
+		if v != "ok" {
+			f = 0
+			if a == 0 {
+				s.hit("VerifySMSCode", "sent-code-never-verifies", fmt.Sprintf("race %d %d: no re-send was accepted, yet the code sent first with its hash → %s", g, n, v))
+			}
+		}
+		return fmt.Sprintf("resend-accepted=%d first-code-verifies=%d", a, f)
+	case <-time.After(60 * time.Second):
+		_ = cmd.Process.Kill()
+		s.hit("concurrent-callers", "crash", fmt.Sprintf("race %d %d: no end after 60 s (deadlock?)", g, n))
+		return "race=crash"
+	}
+}
+
 // stress line: runs stressChild in a child process; a crash is a monitor hit.
 func (s *sess) stress(gw, nw string) string {
 	g, ok1 := parseNat(gw)
@@ -1030,6 +1161,8 @@ func (s *sess) line(l string) string {
 		return s.bulk(f[1], f[2], f[3])
 	case f[0] == "stress" && len(f) == 3:
 		return s.stress(f[1], f[2])
+	case f[0] == "race" && len(f) == 4:
+		return s.race(f[1], f[2], f[3])
 	case f[0] == "nonce" && len(f) == 4:
 		return s.nonce(f[1], f[2], f[3])
 	case f[0] == "cover" && len(f) == 2:
@@ -1482,6 +1615,13 @@ func genBulk(r *rng.R, tier string) corr.Case {
 		}
 		lines = append(lines, fmt.Sprintf("bulk %d %d %d", cap, n, k))
 	}
+	if r.Chance(1, 8) { // parallel callers on one instance (child process): re-sends inside the minimum interval under contention
+		g, n := r.PickInt(2, 4, 8), r.PickInt(2000, 5000, 20000)
+		if tier != "quick" && r.Chance(1, 4) {
+			g, n = r.PickInt(8, 16), r.PickInt(50000, 100000)
+		}
+		lines = append(lines, fmt.Sprintf("race %d %d %s", g, n, r.Pick("0", "1")))
+	}
 	if tier != "quick" && r.Chance(1, 80) { // concurrent callers in a child process (thorough / search tiers only)
 		lines = append(lines, fmt.Sprintf("stress %d %d", r.PickInt(4, 8, 8, 16), r.PickInt(5000, 20000)))
 	}
@@ -1535,7 +1675,7 @@ func genMalformed(r *rng.R) corr.Case {
 	bad := []string{"send 1", "send", "send 1 23 4", "verify 1 23 cur", "verify 1 23 cur hcur x", "verify 1 23 cux hcur", "verify 1 23 cur g1",
 		"verify 1 23 c hcur", "verify 1 23 c1x h1", "verify 1 23 cur h1x", "frob 1 2", "", "nonce ab 1", "nonce ab x 1", "nonce ab 1 1,,2", "nonce ab 1 1,-2",
 		"cover", "cover ab cd", "sample ab 1", "sample ab 0 100", "sample _ 1 1000", "sample ab 1 x", "SEND 1 23", "send 1 23", "verify 1 23 cur hcur",
-		"verify 1 23 lit: h-", "nonce ab 2 1,2", "new", "send 1 %", "send %4 2", "send 1 %zz", "verify 1 2%C lit:1 hx", "verify 1 23 lit:%4 hx", "bulk 1 2", "bulk 1 2 x", "bulk 3 200001 0", "bulk -1 2 0", "bulk 2 3 1"}
+		"verify 1 23 lit: h-", "nonce ab 2 1,2", "new", "send 1 %", "send %4 2", "send 1 %zz", "verify 1 2%C lit:1 hx", "verify 1 23 lit:%4 hx", "bulk 1 2", "bulk 1 2 x", "bulk 3 200001 0", "bulk -1 2 0", "bulk 2 3 1", "race 2 100", "race 0 100 1", "race 2 100 2", "race 2 0 1", "race 65 10 0", "race x 10 0"}
 	for i := r.Range(1, 6); i > 0; i-- {
 		lines = append(lines, bad[r.Intn(len(bad))])
 	}
@@ -1585,11 +1725,23 @@ func fillCases() []corr.Case {
 		}
 		cs = append(cs, corr.Case{Tag: "fixed-fill", Lines: append(l, "verify "+ph(1)+" cur hcur", "verify "+ph(0)+" cur hcur", "send "+ph(1), "send "+ph(0))})
 	}
+	// a re-send moves the pair to the front (Set of the same object): CacheSize 2, send A, send B, re-send A, send C ⇒ A stays, B goes
+	for _, cap := range []int{2, 3, 16} {
+		l := []string{nl(cap, alwaysMs), "send " + ph(0)}
+		for i := 1; i < cap; i++ {
+			l = append(l, "send "+ph(i))
+		}
+		l = append(l, "send "+ph(0), "send "+ph(cap), "verify "+ph(0)+" cur hcur", "verify "+ph(1)+" cur hcur")
+		cs = append(cs, corr.Case{Tag: "fixed-fill", Lines: l})
+	}
 	std := nl(100000, alwaysMs)
 	cs = append(cs,
 		corr.Case{Tag: "fixed-bulk", Lines: []string{std, "bulk 16 17 1", "bulk 16 17 0", "bulk 3 5 2", "bulk 3 5 1", "bulk 0 3 2", "bulk 5 3 7", "bulk 64 300 236", "bulk 64 300 235", "bulk 1 1 0", "bulk 7 0 0"}},
 		// the CacheSize the harness itself configures must really be honoured: 70 000 entries in a 100 000 cache
 		corr.Case{Tag: "fixed-bulk", Lines: []string{std, "bulk 100000 70000 0"}},
+		// parallel callers: re-sends inside the minimum interval while 8 / 4 goroutines keep the cache busy
+		corr.Case{Tag: "fixed-race", Lines: []string{std, "race 8 20000 1"}},
+		corr.Case{Tag: "fixed-race", Lines: []string{std, "race 4 5000 0"}},
 		// byte strings: "é" = C3 A9; the pairs ("é","5") and ("\xc3","\xa95") are different pairs
 		corr.Case{Tag: "fixed-bytes", Lines: []string{"new cap=100000 mock=1 len=1 maxc=3 maxv=3 ttl=9223372037 mini=-1 win=9223372037 smsfail=0", "send %C3%A9 5", "verify %C3 %A95 lit:5 h1", "verify %C3%A9 5 cur hcur",
 			"send %C3%A9%C3%A9 %C3%A9", "verify %C3%A9%C3%A9 %C3%A9 lit:%A9 hcur", "verify %C3%A9 %C3%A9%C3%A9 lit:%A9 h2", "verify %C3%A9%C3%A9 %C3%A9 lit:%C3%A9 hcur"}},
@@ -1695,7 +1847,7 @@ func spec() corr.Spec {
 					acc = true
 				case strings.HasPrefix(l, "verify ") && acc && o != "bad-op":
 					ver = true
-				case (strings.HasPrefix(l, "nonce ") || strings.HasPrefix(l, "cover ") || strings.HasPrefix(l, "sample ") || strings.HasPrefix(l, "bulk ") || strings.HasPrefix(l, "stress ")) && o != "bad-op":
+				case (strings.HasPrefix(l, "nonce ") || strings.HasPrefix(l, "cover ") || strings.HasPrefix(l, "sample ") || strings.HasPrefix(l, "bulk ") || strings.HasPrefix(l, "stress ") || strings.HasPrefix(l, "race ")) && o != "bad-op":
 					other = true
 				}
 			}
